@@ -11,13 +11,13 @@ PLAN = dict(
          "out-of-range scalars; every encrypter / options / decoder-parameter object the API lets a caller keep is also "
          "driven through histories of 2-3 calls with different keys and passwords; distinct = distinct class keys (configuration | container / algorithm choice / key shape / "
          "password kind, for alteration sweeps: container / DER element / outcome)",
-    jobs=both("c14.plain", _CFG, shards=(2, 8), floor=100)
-    + both("c14.pbes", _CFG, shards=(4, 16), floor=1000)
+    jobs=both("c14.plain", _CFG + ["ia32"], shards=(2, 8), floor=100)
+    + both("c14.pbes", _CFG + ["ia32"], shards=(4, 16), floor=1000)
     + both("c14.reuse", _CFG, shards=(2, 8), floor=100)
     + both("c14.pem", _CFG, shards=(2, 8), floor=100)
     + both("c14.wrap", _CFG, shards=(2, 8), floor=50)
     + both("c14.tamper", _CFG, shards=(2, 8), floor=20)
-    + both("c14.range", _CFG, shards=(1, 4), floor=20)
+    + both("c14.range", _CFG + ["ia32"], shards=(1, 4), floor=20)
     + both("c14.interop", _CFG, shards=(1, 1), floor=10),
     assumptions=[
         "the reference models in harness/ref/pbes (PBES1/PBES2/PBKDF2/legacy PEM/CFCA/SM4 modes over ref/sm3, ref/sm4 and the "
